@@ -398,7 +398,15 @@ def c10(ctx):
     def item(p, rs):
         return {"id": p["id"], "stmts": p["stmts"], "u": 1, "u2": 2, "r1": False,
                 "bps": [prep_bp(rs[""]["bp"]), prep_bp(rs["#noopt"]["bp"])]}
-    run_refine(ctx, sel, consts, item_fn=item, variants=[("", {}), ("#noopt", {"optimize": False})], batch_size=30)
+    for p in sel:
+        p.setdefault("job", {}).update({"trace": True, "tracedir": ctx.wd})
+    run_refine(ctx, sel, consts, item_fn=item, variants=[("", {}), ("#noopt", {"optimize": False})], batch_size=30, keep_results=True)
+    # the CSE design model (DESIGN 14.11): model check, recorded optimizer passes (code -> spec), TLC-enumerated operation sequences
+    # through the real optimizer (spec -> code)
+    import cse
+    design_mc(ctx, "MC_Cse", "MC_Cse.cfg", workers=6, timeout=1800, coverage=False)
+    cse.validate_events(ctx, ctx.results, sel)
+    cse.validate_instances(ctx, quick=ctx.tier == "quick")
 
 
 def twin_item(p, rs, **extra):
@@ -1340,6 +1348,10 @@ def replay(ctx, path):
     with open(path) as fh:
         rp = json.load(fh)
     pl = rp["payload"]
+    if pl.get("kind") in ("cse", "cse-instance"):
+        import cse
+        rp["path"] = path
+        return cse.replay_cse(ctx, rp)
     if pl.get("kind") in ("colour", "colour-instance"):
         import colour
         rp["path"] = path
